@@ -9,3 +9,6 @@ for k,v in res.items():
     for f in v['failed_checks']: print('   ', f)
 print(meta['cmd']); print('wall', meta['wall_s'], 'rc', meta['rc'], 'compile_error', meta['compile_error'])
 if '--out' in sys.argv or meta['compile_error'] or any(v['status']=='MISSING' for v in res.values()): print(meta['out'][-6000:])
+import re
+errs = re.findall(r'^error.*?(?=^\S|\Z)', meta['out'], re.M|re.S)
+for e in errs[:8]: print('ERR:', e[:700])
